@@ -20,4 +20,9 @@ theorem numeric_types :
     Generated.SigConsts.numericTypes =
       ["int", "float", "np.int32", "np.int64", "np.float32", "np.float64", "np.longdouble"] := by decide
 
+/-- the equality test and the exponent rounding still have the shape the model describes -/
+theorem eq_shape : Generated.SigConsts.eqShape = true := by decide
+
+theorem round_shape : Generated.SigConsts.roundShape = true := by decide
+
 end Sageopt.Props.C12
